@@ -20,6 +20,7 @@ type c15Case struct {
 	Fragment bool   `json:"fragment"` // the bundle is a fragment
 	Outcome  string `json:"outcome"`
 	BlockFl  uint64 `json:"block_flags,omitempty"` // flags of the unknown block (outcome "unknown-block")
+	NextFl   uint64 `json:"next_flags,omitempty"`  // a SUPPORTED block (hop count 0 of 30) directly follows the unknown one and carries these flags: they entitle to nothing
 	RptSelf  bool   `json:"rpt_self"`              // report-to is an endpoint of this node
 	RptOther bool   `json:"rpt_other_authority"`   // ... namely an endpoint with another node name which a local agent has registered
 	RptCLA   int    `json:"rpt_listener,omitempty"` // ... namely under the node name of the first (1) or second (2) of two listeners of one CLA type
@@ -134,6 +135,9 @@ func c15Body(c *vk.Ctx, cs c15Case) {
 	case "hop-exceeded", "hop-exceeded-later":
 		spec.Blocks = append([]vk.BlockSpec{{Type: vk.BTHop, Num: 2, Limit: 5, Count: 5}}, spec.Blocks...)
 	case "unknown-block", "unknown-block-later":
+		if cs.NextFl != 0 {
+			spec.Blocks = append([]vk.BlockSpec{{Type: vk.BTHop, Num: 3, Flags: cs.NextFl, Limit: 30, Count: 0}}, spec.Blocks...)
+		}
 		spec.Blocks = append([]vk.BlockSpec{{Type: 99, Num: 2, Flags: cs.BlockFl, Data: []byte{1, 2, 3}}}, spec.Blocks...)
 		hasReportBlock = cs.BlockFl&vk.BFReport != 0
 	case "expired":
@@ -358,7 +362,7 @@ func eidSpec(uri string) vk.EIDSpec {
 
 func TestVerifC15Matrix(t *testing.T) {
 	u := vk.Unit{Property: "C15", Name: "c15.matrix",
-		Rule: "matrix: {16 combinations of the four status-request flags} x {time flag} x {fragment / whole} x outcome {delivered to an agent, addressed to the node without agent, forwarded, all sends fail, lifetime expired, hop limit exceeded, no route, unknown block x 8 block-flag combinations, and the variants in which the event happens on a retry from the store: forwarded later, sends fail then succeed, hop limit exceeded later, unknown block + forwarded later} x {report-to = a peer / an endpoint under this node's name / an endpoint with another node name registered by a local agent / the node name of the first or second of two listeners of one convergence-layer type}, each cell on a fresh node (quick: every third cell with epidemic; thorough: every cell with epidemic, spray and prophet); every administrative-record bundle captured at a scripted peer or agent is decoded with the independent reader and must be well-formed, addressed to the report-to endpoint, reference the exact bundle ID (incl. fragment offset/length), carry one asserted item, a time iff requested, no request flags, and be justified by a logged event and a request, each (status, reason) reported at most once; captured reports are fed back into the node (as transit and as local bundles) and must not produce further reports; non-trivial = cell with >= 1 request flag; distinct by case"}
+		Rule: "matrix: {16 combinations of the four status-request flags} x {time flag} x {fragment / whole} x outcome {delivered to an agent, addressed to the node without agent, forwarded, all sends fail, lifetime expired, hop limit exceeded, no route, unknown block x 8 block-flag combinations (also directly followed by a supported block that carries the report / delete flags, which entitle to nothing), and the variants in which the event happens on a retry from the store: forwarded later, sends fail then succeed, hop limit exceeded later, unknown block + forwarded later} x {report-to = a peer / an endpoint under this node's name / an endpoint with another node name registered by a local agent / the node name of the first or second of two listeners of one convergence-layer type}, each cell on a fresh node (quick: every third cell with epidemic; thorough: every cell with epidemic, spray and prophet); every administrative-record bundle captured at a scripted peer or agent is decoded with the independent reader and must be well-formed, addressed to the report-to endpoint, reference the exact bundle ID (incl. fragment offset/length), carry one asserted item, a time iff requested, no request flags, and be justified by a logged event and a request, each (status, reason) reported at most once; captured reports are fed back into the node (as transit and as local bundles) and must not produce further reports; non-trivial = cell with >= 1 request flag; distinct by case"}
 	var cells []c15Case
 	reqs := []uint64{}
 	for m := 0; m < 16; m++ {
@@ -391,6 +395,12 @@ func TestVerifC15Matrix(t *testing.T) {
 							bfs = []uint64{0, vk.BFReport, vk.BFDeleteBndl, vk.BFRemove, vk.BFReport | vk.BFDeleteBndl, vk.BFReport | vk.BFRemove, vk.BFDeleteBndl | vk.BFRemove, vk.BFReport | vk.BFDeleteBndl | vk.BFRemove}
 						}
 						for _, bf := range bfs {
+							if (oc == "unknown-block" || oc == "unknown-block-later") && req&(vk.FReqRecv|vk.FReqDel) != vk.FReqRecv|vk.FReqDel {
+								// the flags of a supported neighbour of the unknown block entitle to no report and no deletion
+								for _, nf := range []uint64{vk.BFReport, vk.BFDeleteBndl, vk.BFReport | vk.BFDeleteBndl} {
+									cells = append(cells, c15Case{Algo: a, Req: req, Time: tm, Fragment: fr, Outcome: oc, BlockFl: bf, NextFl: nf})
+								}
+							}
 							for _, self := range []bool{false, true} {
 								if self && oc != "forwarded" && oc != "delivered" && oc != "hop-exceeded" {
 									continue
